@@ -58,14 +58,16 @@ Call == /\ IsEvent("Call")
         /\ pc' = "called"
         /\ run' = Trace[l].run
         /\ toks' = Trace[l].p.toks
-        /\ pg' = [h1 |-> Trace[l].p.h1, h2 |-> Trace[l].p.h2, mk |-> Trace[l].p.mk]
+        \* deco: the driver decorated the title with characters the model has no token for (apostrophe, closing
+        \* punctuation): the property predicates are judged as always, the comparison with the model is skipped
+        /\ pg' = [h1 |-> Trace[l].p.h1, h2 |-> Trace[l].p.h2, mk |-> Trace[l].p.mk, deco |-> Trace[l].p.deco]
         /\ ms' = Start
         /\ srcA' = Trace[l].src
         /\ bad' = {}
-        /\ (FactsOf(srcA') # PageFacts(toks', pg')) =>
+        /\ (~pg'.deco /\ FactsOf(srcA') # PageFacts(toks', pg')) =>
               PrintT(<<"@@DRIFT", ToJson([run |-> Trace[l].run, what |-> "generated page differs from the model's page",
                                           p |-> Trace[l].p, title |-> Trace[l].src.title])>>)
-        /\ (~SourceConsistent(Trace[l].src)) =>
+        /\ (~pg'.deco /\ ~SourceConsistent(Trace[l].src)) =>
               PrintT(<<"@@DRIFT", ToJson([run |-> Trace[l].run, what |-> "string facts and atom facts of the source differ",
                                           title |-> Trace[l].src.title])>>)
 
@@ -111,16 +113,16 @@ Return == /\ IsEvent("Return")
                      PrintT(<<"@@BAD", ToJson([run |-> run, inv |-> name, class |-> Class(m, o)])>>)
                /\ \A name \in fb \ fa :
                      PrintT(<<"@@BAD", ToJson([run |-> run, inv |-> name, class |-> Class(m, o) \o "+block"])>>)
-               /\ (~o.err /\ ToAtoms(o.atoms) # m.title) =>
+               /\ (~pg.deco /\ ~o.err /\ ToAtoms(o.atoms) # m.title) =>
                      PrintT(<<"@@DRIFT", ToJson([run |-> run, what |-> "title differs from the model's", br |-> m.br,
                                                  got |-> o.title, srcA |-> srcA.title])>>)
-               /\ (~Decoded(srcA, o) \/ (r.done /\ ~Decoded(r.src, r.obs))) =>
+               /\ (~pg.deco /\ (~Decoded(srcA, o) \/ (r.done /\ ~Decoded(r.src, r.obs)))) =>
                      PrintT(<<"@@DRIFT", ToJson([run |-> run, what |-> "string relations and atom relations differ",
                                                  got |-> o.title, srcA |-> srcA.title])>>)
                /\ (srcA.mk /\ ~o.err /\ ~(o.mksupplied /\ o.mksrc)) =>
                      PrintT(<<"@@DRIFT", ToJson([run |-> run, what |-> "MarkupInfo.Title is not the markup title of the page",
                                                  got |-> o.mktitle])>>)
-               /\ (r.done /\ (~r.same \/ (~r.obs.err /\ ToAtoms(r.obs.atoms) # Run(FactsOf(r.src)).title))) =>
+               /\ (~pg.deco /\ r.done /\ (~r.same \/ (~r.obs.err /\ ToAtoms(r.obs.atoms) # Run(FactsOf(r.src)).title))) =>
                      PrintT(<<"@@DRIFT", ToJson([run |-> run, what |-> "title of the page with the repeating block", br |-> m.br,
                                                  block |-> r.block, got |-> r.obs.title, before |-> o.title])>>)
           /\ UNCHANGED <<toks, pg, run, srcA>>
